@@ -59,3 +59,37 @@ fn iri_ascii_3() {
         Err(_) => {}
     }
 }
+
+const ALPHA: [char; 8] = ['?', '$', 'a', '_', ' ', '<', 'é', '€'];
+fn sel_str<'a>(buf: &'a mut [u8; 12], n: usize) -> &'a str {
+    let mut len = 0usize;
+    let k: usize = kani::any();
+    kani::assume(k <= n);
+    let mut i = 0;
+    while i < n {
+        if i < k {
+            let c: usize = kani::any();
+            kani::assume(c < 8);
+            let ch = ALPHA[c];
+            let w = ch.encode_utf8(&mut buf[len..]).len();
+            len += w;
+        }
+        i += 1;
+    }
+    unsafe { std::str::from_utf8_unchecked(&buf[..len]) }
+}
+
+#[kani::proof]
+#[kani::unwind(6)]
+fn variable_alpha_3() {
+    let mut buf = [0u8; 12];
+    let s = sel_str(&mut buf, 3);
+    match sparql_variable(s) {
+        Ok((rest, tok)) => {
+            assert!(tok.len() + rest.len() <= s.len());
+            assert!(tok.len() >= 2);
+            assert!(s.ends_with(rest));
+        }
+        Err(_) => {}
+    }
+}
